@@ -592,9 +592,10 @@ class Library(object):
             if v.ty == 'int':
                 ctx = self.I.ctx
                 if ctx.entails(v.t >= 0):
-                    r = z3.IntToStr(v.t)
-                    spec.mark_noslash(ctx, r)
-                    spec.mark_nonempty(ctx, r)
+                    r = spec.int_str_f(v.t)
+                    ctx.used_axioms.add('str(int) for a non-negative int: an '
+                                        'uninterpreted non-empty digit string')
+                    spec.mark_digits(ctx, r)
                     key = ('digits', r.get_id())
                     if key not in ctx.notes:
                         ctx.notes[key] = True
@@ -813,6 +814,8 @@ class Library(object):
         if _is_str(a) and _is_str(b):
             if isinstance(a, str) and isinstance(b, str):
                 return a == b
+            if spec.definitely_different(I.ctx, z3str(a), z3str(b)):
+                return False
             return mk(z3str(a) == z3str(b))
         if _is_bytes(a) and _is_bytes(b):
             return mk(a.t == b.t)
